@@ -398,8 +398,8 @@ struct ChannelWorld : World {
                 pl.add("rekey", {s, (int64_t)r.below(3), (int64_t)(r.next() >> 1)});
             } else if (c < 88) {
                 // nonce helpers: 0 set_counter, 1 set_nonce(len), both ends or one end
-                int kind = (int)r.below(2);
-                int64_t arg = kind == 0 ? (int64_t)(r.chance(1, 3) ? (r.next() >> 1) : (r.chance(1, 2) ? 0xFFFFFFFFFFFFLL + (int64_t)r.below(3) : (int64_t)r.below(70000)))
+                int kind = (int)r.below(3);
+                int64_t arg = kind != 1 ? (int64_t)(r.chance(1, 3) ? (r.next() >> 1) : (r.chance(1, 2) ? 0xFFFFFFFFFFFFLL + (int64_t)r.below(3) : (int64_t)r.below(70000)))
                                         : r.pickv({0, 1, 7, 8, 12, 15, 16, 17, 24});
                 pl.add("nonce", {s, (int64_t)r.below(3), kind, arg, (int64_t)(r.next() >> 1)});
             } else if (c < 93) {
@@ -703,12 +703,22 @@ struct ChannelWorld : World {
         if (!S.live) return;
         int who = (int)(op.u(1) % 3); // 0 A, 1 B, 2 both
         Bytes key = bytes_of(fam_keylen(S.fam), op.u(2) ^ c.salt ^ 9);
+        bool null_key = fam_cls(S.fam) == INC && (op.u(2) % 5) == 0; // *_aead_reinit(state, npub, NULL): documented all-zero key
+        if (null_key) key.assign(key.size(), 0);
         for (int side = 0; side < 2; ++side) {
             if (who != 2 && who != side) continue;
             Endpoint &E = side == 0 ? S.A : S.B;
             sync_explicit_nonce(c, E, "before_rekey");
             E.key = key;
-            ep_key_objects(E, true);
+            if (null_key) {
+                int alg = fam_alg(E.fam);
+                uint8_t n[16];
+                memcpy(n, E.nonce, 16);
+                if (alg == A128) ascon128_aead_reinit(&E.u.s128, n, nullptr);
+                else if (alg == A128A) ascon128a_aead_reinit(&E.u.s128a, n, nullptr);
+                else ascon80pq_aead_reinit(&E.u.s80, n, nullptr);
+                if (c.record) c.run->probe("inc.reinit_null_key");
+            } else ep_key_objects(E, true);
             E.calibrated = false;
         }
         if (who != 2 && c.record) c.run->fault("net.key_mismatch");
@@ -719,7 +729,8 @@ struct ChannelWorld : World {
         Session &S = c.S[op.u(0) % NSESS];
         if (!S.live) return;
         int who = (int)(op.u(1) % 3);
-        int kind = (int)(op.u(2) % 2);
+        int kind = (int)(op.u(2) % 3);
+        if (kind == 2 && fam_cls(S.fam) != INC) kind = 0;
         for (int side = 0; side < 2; ++side) {
             if (who != 2 && who != side) continue;
             Endpoint &E = side == 0 ? S.A : S.B;
@@ -735,6 +746,15 @@ struct ChannelWorld : World {
                     ep_push_nonce(E);
                 }
                 if (c.record) c.run->probe("nonce.set_counter");
+            } else if (kind == 2) {
+                // *_aead_reinit(state, NULL, k): documented all-zero nonce
+                int alg = fam_alg(E.fam);
+                if (alg == A128) ascon128_aead_reinit(&E.u.s128, nullptr, E.key.data());
+                else if (alg == A128A) ascon128a_aead_reinit(&E.u.s128a, nullptr, E.key.data());
+                else ascon80pq_aead_reinit(&E.u.s80, nullptr, E.key.data());
+                memset(E.nonce, 0, 16);
+                want = 0;
+                if (c.record) c.run->probe("inc.reinit_null_nonce");
             } else {
                 size_t len = (size_t)(op.u(3) % 25);
                 Bytes nb = bytes_of(len, op.u(4) ^ 0x6e);
